@@ -377,7 +377,7 @@ rank reduces its ceil-stride slice of the signed edges (forest-index order, hidd
 the schedule its stand-in logged; `boost::mpi::reduce` combines the rank results along a tree we cannot observe, so what
 rank 0 emits must be the result of SOME rank whose weight is the minimum over the ranks (with distinct weights: the unique
 minimum).  The supports follow the literal bookkeeping with the emitted cycles. -/
-def replayMpiSigned (id : String) (gI : Graph) (rev : List Nat) (dim : Nat) (sup0 : List (List Nat)) (P : Nat)
+def replayMpiSigned (id : String) (gI : Graph) (rev : List Nat) (_dim : Nat) (sup0 : List (List Nat)) (P : Nat)
     (rest : List (List String)) (cycI : List (List Nat)) : Option String := Id.run do
   -- per rank: its schedules in call order
   let rs := rest.filter (fun l => l.head? == some "rsched")
